@@ -174,3 +174,54 @@ def job_compile(job):
   text, pred, uf = job[0], job[1], job[2]
   root = job[3] if len(job) > 3 else None
   return _plain(compile_pred(text, pred, uf, root))
+
+
+# ---------------- C++ parser (shared object rebuilt from the current parser_cpp/logica_parse.cpp) ----------------
+
+def cpp_cache_home():
+  """A verif-owned cache directory keyed by the *content* of the C++ source, so that the shared object is
+  rebuilt whenever the source changes and never reused across different sources."""
+  import hashlib
+  src = os.path.join(core.REPO, 'parser_cpp', 'logica_parse.cpp')
+  h = hashlib.sha256(open(src, 'rb').read()).hexdigest()[:16]
+  root = os.path.join(core.VERIF, '.cache_cpp')
+  d = os.path.join(root, h)
+  os.makedirs(d, exist_ok=True)
+  # keep the cache small: drop all other versions
+  for other in os.listdir(root):
+    if other != h:
+      import shutil
+      shutil.rmtree(os.path.join(root, other), ignore_errors=True)
+  return d
+
+
+@contextlib.contextmanager
+def parser_mode(mode):
+  """mode 'PY' or 'CPP' for parse.ParseFile in this process."""
+  old = os.environ.get('LOGICA_PARSER')
+  old_x = os.environ.get('XDG_CACHE_HOME')
+  os.environ['LOGICA_PARSER'] = mode
+  if mode == 'CPP':
+    os.environ['XDG_CACHE_HOME'] = cpp_cache_home()
+  try:
+    yield
+  finally:
+    if old is None:
+      os.environ.pop('LOGICA_PARSER', None)
+    else:
+      os.environ['LOGICA_PARSER'] = old
+    if old_x is None:
+      os.environ.pop('XDG_CACHE_HOME', None)
+    else:
+      os.environ['XDG_CACHE_HOME'] = old_x
+
+
+def ensure_cpp_built():
+  """Build (once, before forking workers) the shared object for the current source. Returns error text or None."""
+  try:
+    with parser_mode('CPP'):
+      with quiet():
+        parse.ParseFile('A(1);')
+    return None
+  except Exception as e:  # noqa: BLE001
+    return '%s: %s' % (type(e).__name__, str(e)[:500])
